@@ -88,6 +88,9 @@ type plan struct {
 	PerBase bool
 	// Prefix: part of the quick enumeration executed first in the thorough tier
 	Prefix bool
+	// Probes / Writes: see hist
+	Probes []int
+	Writes bool
 }
 
 func (p *plan) size() int64 {
@@ -460,6 +463,59 @@ func buildPlans(tier string) []*plan {
 		}
 	}
 
+	// (at most one fork creates: with the owner's own columns deselected the new key comes from the table's
+	// AUTOINCREMENT sequence, which a second create would see advanced)
+	// PA/PAR: handles that select / omit associations (has-many with a nested has-one, has-one, many2many), used by
+	// two chains that write (Delete / Save / Create / Updates on disjoint rows with explicit keys), DryRun and on
+	// SQLite (tables reseeded per history, statement logs compared as multisets).
+	// PG: conditions built from clause.Or / clause.And expressions, and the handle passed as the SOLE group
+	// condition of a chain that starts at the Open handle (Unscoped / a model without soft delete), followed by
+	// later chains of the handle.
+	{
+		lab := func(ls ...string) []int {
+			var out []int
+			for _, l := range ls {
+				i, ok := opByLabel[l]
+				if !ok {
+					panic("unknown chain call " + l)
+				}
+				out = append(out, i)
+			}
+			return out
+		}
+		abandonB := []event{{Kind: evBuildA}, {Kind: evBuildB}, {Kind: evExecA}}
+		sc := append(baseScheds(), abandonB)
+		sel := lab(`Select("Dogs")`, `Select("Dogs","Dogs.Toy")`, `Select("Name","Dogs","Dogs.Toy","Profile")`, `Select(clause.Associations)`, `Select(clause.Associations,"Dogs.Toy")`, `Select("Profile","Langs")`, `Omit("Dogs.Toy")`, `Omit("Langs","Profile")`, `Omit(clause.Associations)`)
+		abases := seqs(sel, 1, 1)
+		abases = union(abases, [][]int{lab(`Select("Dogs","Dogs.Toy")`, `Omit("Langs","Profile")`), lab(`Select(clause.Associations)`, `Omit("Dogs.Toy")`), lab(`Where("name <> ?","zz")`, `Select("Dogs","Dogs.Toy")`)})
+		if thorough {
+			abases = union(abases, seqs(sel, 2, 2))
+		}
+		aforks := [][]int{lab(`Where("name <> ?","zz")`), lab(`Unscoped()`), lab(`Omit("Dogs.Toy")`), lab(`Select("Dogs")`)}
+		wfins := [][2]int{{fDelOwner1, fDelOwner2}, {fSaveOwner1, fSaveOwner2}, {fCreateOwnerA, fSaveOwner2}, {fUpdatesOwner1, fUpdatesOwner2}, {fDelOwner1, fSaveOwner2}, {fCreateOwnerA, fDelOwner2}, {fUpdatesOwner1, fCreateOwnerB}, {fHandle, fDelOwner2}, {fDelOwner1, fHandle}, {fSaveOwner1, fFindOwners}}
+		aprobes := []int{fState, fFindOwners}
+		plans = append(plans, &plan{Name: "PA-assoc-writes", Bases: abases, Makers: []int{mkSession, mkContext}, ForksA: aforks[:2], ForksB: aforks, Fins: wfins, Scheds: sc, Modes: both, PerBase: true, Probes: aprobes, Writes: true})
+		rsc := [][]event{sABab, sAaBb}
+		rf := wfins[:6]
+		if thorough {
+			rsc = sc
+			rf = wfins
+		}
+		plans = append(plans, &plan{Name: "PAR-assoc-writes", Real: true, Bases: abases, Makers: []int{mkSession, mkBegin}, ForksA: aforks[:2], ForksB: aforks[:2], Fins: rf, Scheds: rsc, Modes: []bool{false}, PerBase: true, Probes: aprobes, Writes: true})
+
+		g := lab(`Or("age = ?",30)`, `Where("name = ?","w")`, `Where(clause.Or(age > 40),clause.Expr(name = w))`, `Where(clause.And(clause.Or(age > 40),name = w))`, `Or(clause.Or(age > 40,name = w))`, `Where(clause.Or(age > 40),clause.Or(name = w),clause.Expr(id > 0))`)
+		gbases := seqs(g, 1, 2)
+		if thorough {
+			gbases = seqs(g, 1, 3)
+		}
+		gA := [][]int{lab(`<Open handle>.Unscoped().Where(<parent handle>)`), lab(`<Open handle>.Model(&Company{}).Where(<parent handle>)`), lab(`<Open handle>.Where(<parent handle>)`), lab(`<Open handle>.Unscoped().Not(<parent handle>)`), lab(`Unscoped()`), lab(`Where(<parent handle>)`), lab(`Unscoped()`, `Where(<parent handle>)`)}
+		gB := [][]int{lab(`Where("name = ?","w")`), lab(`Unscoped()`), lab(`Limit(5)`), lab(`<Open handle>.Where(<parent handle>)`)}
+		gfins := [][2]int{{fFind, fFind}, {fHandle, fUpdate}, {fCount, fHandle}}
+		plans = append(plans, &plan{Name: "PG-group-sole-condition", Bases: gbases, Makers: []int{mkSession}, ForksA: gA, ForksB: gB, Fins: gfins, Scheds: sc, Modes: both, PerBase: true})
+		plans = append(plans, &plan{Name: "PGm-group-sole-condition", Bases: gbases, Makers: []int{mkContext, mkDebug}, ForksA: gA[:5], ForksB: gB[:2], Fins: gfins[:1], Scheds: sc[2:3], Modes: []bool{true}, PerBase: true})
+		plans = append(plans, &plan{Name: "PGR-group-sole-condition", Real: true, Bases: seqs(g, 1, 2), Makers: []int{mkSession}, ForksA: gA[:5], ForksB: gB[:2], Fins: [][2]int{{fFind, fFind}}, Scheds: sc[2:3], Modes: []bool{false}, PerBase: true})
+	}
+
 	// PHR2: on SQLite, every finisher executed on a handle whose base mixes two kinds (Count with Group/Distinct/
 	// Select, FindInBatches with Limit/Offset/Order, ...)
 	{
@@ -726,7 +782,7 @@ func main() {
 	// the verdict does not depend on how many other checks share the machine; a wall-clock cap ends the run
 	// anyway (exit 0/1 as found so far, exhaustive:false).
 	budget := 80 * time.Second
-	wallCap := 6 * time.Minute
+	wallCap := 12 * time.Minute
 	if args.Tier == "thorough" {
 		budget = 9*time.Minute + 30*time.Second
 		wallCap = 30 * time.Minute
@@ -797,7 +853,7 @@ func main() {
 						for _, fp := range p.Fins {
 							for _, sc := range p.Scheds {
 								for _, dense := range p.Modes {
-									hs := &hist{Real: p.Real, Base: u.base, Maker: u.maker, A: fa, B: b, FinA: fp[0], FinB: fp[1], Events: sc, Dense: dense}
+									hs := &hist{Real: p.Real, Base: u.base, Maker: u.maker, A: fa, B: b, FinA: fp[0], FinB: fp[1], Events: sc, Dense: dense, Probes: p.Probes, Writes: p.Writes}
 									if outOfScope(hs) {
 										atomic.AddInt64(&skipped, 1)
 										continue
@@ -931,7 +987,7 @@ func main() {
 		"traces_validated_against_impl":     total.transitions,
 		"evaluations":                       total.histories,
 		"distinct_nontrivial":               setNontrivial.len(),
-		"rule":                              "histories = base chain (<=3 calls) -> handle maker (Session | WithContext | Debug | Begin on SQLite | the gorm.Open handle itself) -> two forks (<=2 calls each) x finisher pair (Find First Take Last Count Pluck Scan FirstOrInit Update Delete Create Save | fork turned into a handle and probed | on SQLite: Find Count First, Count-then-Find on one chain) x schedule {aBuild bBuild aExec bExec | aBuild bBuild bExec aExec | aBuild aExec bBuild bExec} (forks range over ordered pairs, so the mirrored schedules are included) x probe mode {after every transition | only at the end} [+ one execution of the handle itself at a gap]. Blocks: P0 forks from the Open handle; P1 base and both forks from the variants of one clause kind (P1m other handle makers, P1h handle executed in between); PH/PHm/PHR/PH2 every finisher of the alphabet (Find First Take Last Count Pluck Scan FirstOrInit FindInBatches FirstOrCreate CreateInBatches Association.Find/Count Update Delete Create Save; on SQLite the read-only ones + Rows Row Transaction(fn)) executed directly ON a live reusable handle — the base handle at every gap of the schedule, the handle made from fork A once it exists — with the handle's base chain (1-2 calls, thorough 1-3) ranging over every clause kind and, in PH2, over every 2-call chain of the quick alphabet, followed by forks and probes of the same handle (PHR2: on SQLite with 2-kind bases); PI/PIR chain calls with an argument they cannot translate (typed nil pointer, unsupported type, unknown relation, failing scope/expression — the call records an error) built on a fork that is executed, turned into a handle or abandoned, or as the base; a panic inside gorm is an observation compared with the isolated replay; PM/PMm/PMR one handle used with two models (User, Pet) whose fields of the same Go name map to different columns — Select/Omit by Go field name in the base, forks choosing the model by Model(..)/Table(..)/the finisher's destination; PQ/PQm/PQR a call kind present in the base repeated by a fork with another argument (Table, Model, Locking, OnConflict, Limit, Select/Distinct, Omit, Unscoped, Preload, Joins, Returning, Set/InstanceSet — the value of the setting is part of every observation) while the other fork does not touch it, schedules incl. build A, build B, exec A with B abandoned; P2 one call each from any kinds; P3 two kinds mixed; P4 (thorough) every 3-call base over the quick alphabet with one-call forks from the kinds in the base; PR the same on SQLite with real queries. distinct_nontrivial = distinct (base, maker, fork, finisher) specs with a non-empty fork whose output was compared with its isolated replay on a fresh gorm.Open; states = distinct handle-tree specs (base+maker; per fork: not built / built / finished / handle + its calls + finisher); transitions = handle made, fork built, fork executed, handle executed — each executed on the implementation and followed by the oracle",
+		"rule":                              "histories = base chain (<=3 calls) -> handle maker (Session | WithContext | Debug | Begin on SQLite | the gorm.Open handle itself) -> two forks (<=2 calls each) x finisher pair (Find First Take Last Count Pluck Scan FirstOrInit Update Delete Create Save | fork turned into a handle and probed | on SQLite: Find Count First, Count-then-Find on one chain) x schedule {aBuild bBuild aExec bExec | aBuild bBuild bExec aExec | aBuild aExec bBuild bExec} (forks range over ordered pairs, so the mirrored schedules are included) x probe mode {after every transition | only at the end} [+ one execution of the handle itself at a gap]. Blocks: P0 forks from the Open handle; P1 base and both forks from the variants of one clause kind (P1m other handle makers, P1h handle executed in between); PH/PHm/PHR/PH2 every finisher of the alphabet (Find First Take Last Count Pluck Scan FirstOrInit FindInBatches FirstOrCreate CreateInBatches Association.Find/Count Update Delete Create Save; on SQLite the read-only ones + Rows Row Transaction(fn)) executed directly ON a live reusable handle — the base handle at every gap of the schedule, the handle made from fork A once it exists — with the handle's base chain (1-2 calls, thorough 1-3) ranging over every clause kind and, in PH2, over every 2-call chain of the quick alphabet, followed by forks and probes of the same handle (PHR2: on SQLite with 2-kind bases); PI/PIR chain calls with an argument they cannot translate (typed nil pointer, unsupported type, unknown relation, failing scope/expression — the call records an error) built on a fork that is executed, turned into a handle or abandoned, or as the base; a panic inside gorm is an observation compared with the isolated replay; PM/PMm/PMR one handle used with two models (User, Pet) whose fields of the same Go name map to different columns — Select/Omit by Go field name in the base, forks choosing the model by Model(..)/Table(..)/the finisher's destination; PQ/PQm/PQR a call kind present in the base repeated by a fork with another argument (Table, Model, Locking, OnConflict, Limit, Select/Distinct, Omit, Unscoped, Preload, Joins, Returning, Set/InstanceSet — the value of the setting is part of every observation) while the other fork does not touch it, schedules incl. build A, build B, exec A with B abandoned; PA/PAR handles that select/omit associations (has-many with nested has-one, has-one, many2many on an Owner graph) used by two writing chains (Delete/Save/Create/Updates on disjoint rows, explicit keys), DryRun and SQLite (tables reseeded per history, statement logs compared as multisets); PG/PGm/PGR conditions built from clause.Or/clause.And expressions and the handle passed as the sole group condition of a chain starting at the Open handle (Unscoped / model without soft delete), then later chains of the handle; every probe of a live handle starts with a passive read of its Statement (Selects, Omits, Table/TableExpr, Distinct, Unscoped, Model type, Joins, Preloads, clause shapes, the setting); P2 one call each from any kinds; P3 two kinds mixed; P4 (thorough) every 3-call base over the quick alphabet with one-call forks from the kinds in the base; PR the same on SQLite with real queries. distinct_nontrivial = distinct (base, maker, fork, finisher) specs with a non-empty fork whose output was compared with its isolated replay on a fresh gorm.Open; states = distinct handle-tree specs (base+maker; per fork: not built / built / finished / handle + its calls + finisher); transitions = handle made, fork built, fork executed, handle executed — each executed on the implementation and followed by the oracle",
 		"samples":                           samples.List(),
 		"exhaustive":                        exhaustive,
 		"violating_histories_by_input_tags": classCounts,
